@@ -328,7 +328,11 @@ class Type4Tag(nfc.tag.Tag):
                 data = bytearray()
                 while len(data) < nlen:
                     offset = self._nlen_size + len(data)
-                    data += self._read_binary(offset, nlen - len(data))
+                    part = self._read_binary(offset, nlen - len(data))
+                    if len(part) == 0:
+                        log.debug("no more data at offset %d", offset)
+                        return None
+                    data += part
 
             except Type4TagCommandError:
                 return None
